@@ -10,6 +10,7 @@ bool Enabled();
 void ResetExecution();
 void EndExecution();
 void OnSwitch(int fiber);
+void OnFiberStack(const void* lo, std::size_t n);
 void OnSpawn(int parent, int child);
 void OnJoin(int joiner, int child);
 void OnEvent(int fiber, int kind, const void* obj, int order);
